@@ -595,7 +595,7 @@ def c05_symbolic(code, v):
     if any(f == "line_opcode_unit" for _p, f, _d in diffs) and not refs.AT310:
         # the known <=3.9 finding: an lnotab entry inside an instruction is moved; classify it
         # (only when every code object with such a difference really has such an entry)
-        with_mid = set(p.split("/")[-1] for p, c in refs.walk_codes(code) if mid_instruction_entries(c)[0])
+        with_mid = set(c.co_name for p, c in refs.walk_codes(code) if mid_instruction_entries(c)[0])
         diffs = [(p, "line_opcode_unit:mid_instruction_entry" if (f == "line_opcode_unit" and p.split("/")[-1] in with_mid) else f, d)
                  for p, f, d in diffs]
     for path, field, detail in diffs:
